@@ -1123,11 +1123,13 @@ class LangServer:
         if def_obj.FQSN.count(":") > 2:
             if def_obj.parent.get_type() == CLASS_TYPE_ID:
                 type_mem = True
-            # An interface body declares its procedure in the scope of the block
+            # An interface body declares its procedure in the scope of the block,
+            # the dummies of a separate module procedure are those of its
+            # implementation as well, which can be in another file
             elif (
                 def_obj.parent.get_type() != INTERFACE_TYPE_ID
                 or def_obj.parent.FQSN.count(":") > 2
-            ):
+            ) and getattr(def_obj.parent, "link_obj", None) is None:
                 restrict_file = def_obj.file_ast.file
                 if restrict_file is None:
                     return None
@@ -1282,11 +1284,13 @@ class LangServer:
         if def_obj.FQSN.count(":") > 2:
             if def_obj.parent.get_type() == CLASS_TYPE_ID:
                 type_mem = True
-            # An interface body declares its procedure in the scope of the block
+            # An interface body declares its procedure in the scope of the block,
+            # the dummies of a separate module procedure are those of its
+            # implementation as well, which can be in another file
             elif (
                 def_obj.parent.get_type() != INTERFACE_TYPE_ID
                 or def_obj.parent.FQSN.count(":") > 2
-            ):
+            ) and getattr(def_obj.parent, "link_obj", None) is None:
                 restrict_file = def_obj.file_ast.file
                 if restrict_file is None:
                     return None
